@@ -95,6 +95,9 @@ type blockRes struct {
 	Panic    bool   `json:"panic"`
 	Err      string `json:"err"`
 	LendPaid bool   `json:"lendPaid"` // the books of a lend reward program moved in this block (observation, used to key a known finding)
+	// before the block a swap-fee gauge with a positive deposit sat on a pair with more than one pool while an oracle price
+	// of that pair was missing (observation of the pre-state, used to key a known finding)
+	MultiNoPrice bool `json:"multiNoPrice"`
 }
 
 // ---------------------------------------------------------------------------------------------------------
@@ -377,7 +380,17 @@ func (fx *fixture) block(r *runner, e *sim.Env, parent int, dt time.Duration) in
 			}
 		}
 	}
-	return r.node(id, "BeginBlock", map[string]interface{}{"dt": int64(dt / time.Second)}, blockRes{Panic: br.Panic, Err: br.Err, LendPaid: lendPaid}, post)
+	multiNoPrice := false
+	for _, g := range pre.Gauges {
+		if g.Kind == "swap" && len(g.Dep) > 0 && g.Pool >= 1 && int(g.Pool) <= len(pre.Pools) {
+			pl := pre.Pools[g.Pool-1]
+			if pl.Multi && !(pl.QOn && pl.BOn) {
+				multiNoPrice = true
+			}
+		}
+	}
+	return r.node(id, "BeginBlock", map[string]interface{}{"dt": int64(dt / time.Second)},
+		blockRes{Panic: br.Panic, Err: br.Err, LendPaid: lendPaid, MultiNoPrice: multiNoPrice}, post)
 }
 
 func must(err error) {
